@@ -23,6 +23,14 @@
    merged), caught (moved to its innermost failure label and appended to advancing_heads), or
    loser (_abort_flow(state, flow_state, head.matching_scores)).
 
+   Scope: the model takes every candidate's flow to be still active when its turn comes in
+   `for head in ordered_heads`.  The code skips (`if not is_active_flow(...): continue`, /repo
+   675a3dd) a head whose flow was stopped earlier in the same call as a child of a losing
+   candidate: such a head gets no effect at all (neither co-win nor a second abort).  That
+   situation needs a candidate that is a descendant of another, losing candidate; the effect of
+   _abort_flow on later candidates is outside the candidate record and is not modelled (the
+   correspondence records no such call; stated as an assumption in the evidence).
+
    Randomness: `random.choice(seq)` = seq[pick k (len seq)] where k is the index of the call
    (= index of the group) - an arbitrary function, constrained in the theorems only by
    pick k n < n.
